@@ -199,13 +199,19 @@ func (g *Types) Struct(depth int) reflect.Type {
 		}
 		num++
 		if g.Sparse {
-			switch t.Pick(6, 2, 1, 1) {
+			switch t.Pick(6, 2, 1, 1, 1) {
 			case 1:
 				num += t.Range(1, 5)
 			case 2:
 				num += t.Range(10, 70)
 			case 3:
 				num += t.Range(100, 2000)
+			case 4:
+				if g.C == Proto {
+					num += t.Range(3000, 400000) // three- and four-byte tags
+				} else if num < 20000 {
+					num += t.Range(2000, 9000)
+				}
 			}
 		}
 		name := fmt.Sprintf("F%d", i)
